@@ -97,7 +97,13 @@ impl<'a> InstanceInformation {
                 simple_dns::rdata::RData::AAAA(aaaa) => {
                     ip_addresses.insert(std::net::Ipv6Addr::from(aaaa.address).into());
                 }
-                simple_dns::rdata::RData::TXT(txt) => attributes.extend(txt.attributes()),
+                // RFC 6763 6.4: strings without a key are ignored; an instance without attributes
+                // is announced as a TXT record holding a single empty string
+                simple_dns::rdata::RData::TXT(txt) => attributes.extend(
+                    txt.attributes()
+                        .into_iter()
+                        .filter(|(key, _)| !key.is_empty()),
+                ),
                 simple_dns::rdata::RData::SRV(srv) => {
                     ports.insert(srv.port);
                 }
